@@ -207,7 +207,9 @@ func c17Scenarios() []c17Scenario {
 	}
 	return []c17Scenario{
 		{"request-to-backend", cfg, func() []c17Step { return []c17Step{{ua, lst, invite(), true, 0}} }},
-		{"request-to-backend-tcp", cfg, func() []c17Step { return []c17Step{{"tcp:a", "127.0.0.1:5062", invite(), true, 0}, {"tcp:a", "127.0.0.1:5062", info(2), false, 0}} }},
+		{"request-to-backend-tcp", cfg, func() []c17Step {
+			return []c17Step{{"tcp:a", "127.0.0.1:5062", invite(), true, 0}, {"tcp:a", "127.0.0.1:5062", info(2), false, 0}}
+		}},
 		{"request-by-route", cfg, func() []c17Step {
 			return []c17Step{{ua, lst, req("OPTIONS", "sip:x@foreign.example.net", "1", "", []string{"<sip:proxy.example.com:5060;lr>, <sip:127.0.2.1:5070;lr>", "<sip:127.0.2.2;lr>;p=1, \"N\" <sip:10.3.3.3;lr>"}), true, 0}}
 		}},
